@@ -877,6 +877,10 @@ func (fc *FnCtx) anchorAsserts(d *ssa.DebugRef) {
 		}
 		fc.anchorsDone[key] = true
 		env := fc.pointEnv(fc.curBlock)
+		if a.Apply {
+			fc.applyLemma(a.C.E.(*ECall), env)
+			continue
+		}
 		f := fc.evalBool(a.C.E, env)
 		if a.Assume {
 			fc.assumeHere(f)
@@ -891,32 +895,6 @@ func (fc *FnCtx) anchorAsserts(d *ssa.DebugRef) {
 func (fc *FnCtx) pointEnv(b *ssa.BasicBlock) *Env {
 	return &Env{fc: fc, heap: &fc.cur, old: &fc.entry, oldLookup: fc.paramLookup,
 		lookup: func(name string) (Val, bool) {
-			var best *varRef
-			for i := range fc.varRefs[name] {
-				r := &fc.varRefs[name][i]
-				if _, done := fc.vals[r.v]; !done {
-					if _, isC := r.v.(*ssa.Const); !isC {
-						if _, isP := r.v.(*ssa.Parameter); !isP {
-							continue
-						}
-					}
-				}
-				if r.block != b && !r.block.Dominates(b) {
-					continue
-				}
-				if r.block == b && r.idx > fc.curIdx {
-					continue
-				}
-				if best == nil || best.block.Dominates(r.block) && (best.block != r.block || r.idx > best.idx) {
-					best = r
-				}
-			}
-			if best != nil {
-				if best.addr {
-					return fc.loadLoc(&fc.cur, fc.locOf(best.v)), true
-				}
-				return fc.val(best.v), true
-			}
-			return fc.paramLookup(name)
+			return fc.resolveVar(name, b, fc.curIdx, &fc.cur)
 		}}
 }
